@@ -266,3 +266,94 @@ func TestKeysCanonicalAndPermuted(t *testing.T) {
 		t.Fatalf("map permutation never fired")
 	}
 }
+
+func TestMapSemanticsAndOwnedRangeOrder(t *testing.T) {
+	// outside the simulator: plain sync.Map semantics, insertion-ordered Range
+	var m Map
+	if _, ok := m.Load("a"); ok {
+		t.Fatal("empty map has a")
+	}
+	m.Store("b", 2)
+	m.Store("a", 1)
+	if v, loaded := m.LoadOrStore("a", 9); !loaded || v.(int) != 1 {
+		t.Fatalf("LoadOrStore existing: %v %v", v, loaded)
+	}
+	if v, loaded := m.LoadOrStore("c", 3); loaded || v.(int) != 3 {
+		t.Fatalf("LoadOrStore new: %v %v", v, loaded)
+	}
+	m.Delete("b")
+	m.Store("b", 22)
+	var got []string
+	m.Range(func(k, v any) bool { got = append(got, k.(string)); return true })
+	if len(got) != 3 || got[0] != "a" || got[1] != "c" || got[2] != "b" {
+		t.Fatalf("Range order outside the simulator: %v", got)
+	}
+	if v, ok := m.LoadAndDelete("c"); !ok || v.(int) != 3 {
+		t.Fatal("LoadAndDelete")
+	}
+	if !m.CompareAndSwap("a", 1, 11) || m.CompareAndSwap("a", 1, 12) {
+		t.Fatal("CompareAndSwap")
+	}
+	if m.CompareAndDelete("a", 1) || !m.CompareAndDelete("a", 11) {
+		t.Fatal("CompareAndDelete")
+	}
+	m.Clear()
+	n := 0
+	m.Range(func(k, v any) bool { n++; return true })
+	if n != 0 {
+		t.Fatal("Clear")
+	}
+	// inside the simulator: the Range order is a function of the tape, and a
+	// check-then-act on the map can be interleaved
+	orders := map[string]bool{}
+	lost := 0
+	scenario := func(c Config) (string, int) {
+		Begin(c)
+		var mm Map
+		order := ""
+		var hit [2]int // one counter per task: the scenario itself is race-free
+		inc := func(t int) {
+			if _, ok := mm.Load("once"); !ok { // check …
+				mm.Store("once", true) // … then act: both tasks may get here
+				hit[t]++
+			}
+		}
+		Run([]func(){
+			func() {
+				for _, k := range []string{"x", "y", "z"} {
+					mm.Store(k, 0)
+				}
+				inc(0)
+				mm.Range(func(k, v any) bool {
+					if k != "once" {
+						order += k.(string)
+					}
+					return true
+				})
+			},
+			func() { inc(1) },
+		})
+		return order, hit[0] + hit[1]
+	}
+	for seed := uint64(1); seed <= 300; seed++ {
+		c := cfg(seed, PolRandom)
+		c.MapPerm = true
+		order, hits := scenario(c)
+		orders[order] = true
+		if hits == 2 {
+			lost++
+		}
+		r := cfg(seed, PolRandom)
+		r.Tape = NewReplayTape(c.Tape.Snapshot())
+		o2, h2 := scenario(r)
+		if o2 != order || h2 != hits {
+			t.Fatalf("seed %d: replay gives (%q,%d), exploration gave (%q,%d)", seed, o2, h2, order, hits)
+		}
+	}
+	if len(orders) < 4 {
+		t.Fatalf("Range order is not varied by the map-order stream: %v", orders)
+	}
+	if lost == 0 {
+		t.Fatal("the window between Load and Store of a check-then-act was never entered")
+	}
+}
